@@ -4,7 +4,10 @@
 //! Bitmap backend implementation based on atomic integers.
 
 use std::num::NonZeroUsize;
+#[cfg(not(vm_memory_verif))]
 use std::sync::atomic::{AtomicU64, Ordering};
+#[cfg(vm_memory_verif)]
+use {crate::verif_hooks::AtomicU64, std::sync::atomic::Ordering};
 
 use crate::bitmap::{Bitmap, NewBitmap, RefSlice, WithBitmapSlice};
 
